@@ -34,7 +34,7 @@ CLAIMS.update({
  "C11": _chain("C11", "Focus: code ids, CodeInfo, address binding (functional, injective), ContractInfo, serving code.", "6/C11"),
  "C12": _chain("C12", "Focus: Ok/Err of Migrate/UpdateAdmin/ClearAdmin, code id/admin/storage afterwards, serving code.", "6/C12"),
  "C13": _chain("C13", "Focus: Ok/Err for every class string as attribute key / event type, emitted events unchanged, rollback.", "6/C13"),
- "C17": _chain("C17", "Focus: which module was called with which sender and payload, Ok/Err, rollback on module failure; incl. the bank calls made by the real staking module (delegation transfer, payouts of a block update).", "6/C17"),
+ "C17": _chain("C17", "Focus: which module was called with which sender and payload, Ok/Err, rollback on module failure; incl. the bank calls made by the real staking module (delegation transfer, payouts of a block update, reward mint); one query of every kind from every invocation; the library's own Accepting/Failing/Stargate stock modules behind the recording fronts (configurations stock*).", "6/C17"),
 })
 
 def _staking(what, design):
